@@ -202,7 +202,7 @@ func Scenario(c Cfg) {
 		go func() {
 			for i := 1; i <= c.K; i++ {
 				select {
-				case in <- Aff{i + 1, i}:
+				case in <- Aff{i + 1, 1}: // x -> (i+1)x+1: no two of these maps commute (x -> (i+1)x+i would: all of them fix -1)
 					env.Log("sent", i)
 				case <-ctx.Done():
 					close(in)
